@@ -425,3 +425,12 @@ class SubtractionReadsOwnLevel(SubtractionMonotone):
 
 
 CONTRACTS += [GetMaxLevel(), SubtractionMonotone(2), SubtractionReadsOwnLevel(2), SubtractionMonotone(3), SubtractionReadsOwnLevel(3)]
+
+
+# --------------------------------------------------------------------------- a refinement step that is refused leaves the 1-D structure as it was
+# C03 speaks about the component grids after EVERY refinement step of a history; a history may contain a step that the library refuses (an interval of two
+# adjacent floating-point numbers cannot be split: RefinementObjectSingleDimension.refine asserts start < mid < end) and that the caller catches before going
+# on.  The 1-D point sets keep containing the domain end points only if the refused step leaves the container untouched (C06 contract, verified here too).
+from contracts import C06  # noqa: E402
+
+CONTRACTS += [C06.ObjRefineForCallers(), C06.ContainerRefineRefusal()]
